@@ -59,7 +59,9 @@ class C04(Suite):
                     # the in-process API lets the count be left out ("the rest of the tag from index i")
                     plan += [{"kind": "read", "idx": i, "n": L - i, "elide": True} for i in range(L)]
                     yield {"budget": B, "tags": [{"name": "T", "type": ty, "len": L, "addr": None}], "plan": plan,
-                           "via_client": k % 2 == 0}     # every other device: requests built by cpppo's own client methods
+                           "via_client": k % 2 == 0,     # every other device: requests built by cpppo's own client methods
+                           # every third device: the budget is set on the serving object, the class keeps its default
+                           "budget_on": "instance" if k % 3 == 0 else "class"}
         # write tilings: all compositions of n <= 6 (quick: <= 4)
         nmax = 4 if tier == "quick" else 6
         for siz, tys in SIZED.items():
